@@ -551,6 +551,10 @@ func (p *ReceiveForm) typecheckForm(gammaNameTypesCtx NamesTypesCtx, providerSha
 			return TypeErrorf("variable names <%s, %s> should not refer to self", p.payload_c.String(), p.continuation_c.String())
 		}
 
+		if p.payload_c.Equal(p.continuation_c) {
+			return TypeErrorf("variable names <%s, %s> are the same. Use unique names", p.payload_c.String(), p.continuation_c.String())
+		}
+
 		gammaNameTypesCtx[p.payload_c.Ident] = NamesType{Type: newLeftType}
 		gammaNameTypesCtx[p.continuation_c.Ident] = NamesType{Type: newRightType}
 
